@@ -86,13 +86,12 @@ func apiCheck(self, prop, mode string) int {
 			res.Findings = append(res.Findings, r)
 		})
 		// histories in which the caller reuses its option values
-		rs := Step{Tier: "argreuse-C16", Size: 2, Bound: 2}
-		if mode == "thorough" {
-			rs = Step{Tier: "argreuse-C16", Size: 3, Bound: 2}
+		rss := []Step{{Tier: "argreuse-C16", Size: 2, Bound: 2}}
+		for _, rs := range rss {
+			CaseTiers["argreuse-C16"].Run(rs, func(int) bool { return true }, res.Stats, func(r Replay) {
+				res.Findings = append(res.Findings, r)
+			})
 		}
-		CaseTiers["argreuse-C16"].Run(rs, func(int) bool { return true }, res.Stats, func(r Replay) {
-			res.Findings = append(res.Findings, r)
-		})
 		res.Samples = append(res.Samples, caseSamples...)
 	}
 	return Conclude(prop, mode, res, nil, t0, "exhaustive enumeration of API cases (signatures / value lists / option lists / result shapes), each executed on the real library under sorted and reversed map order against a reference computed from the case description; transitions = executions + choice points")
